@@ -1330,6 +1330,11 @@ func (s *Netceptor) SendMessageWithHopsToLive(fromService string, toNode string,
 	if strings.EqualFold(toNode, "localhost") {
 		toNode = s.nodeID
 	}
+	if toNode == s.nodeID {
+		// A locally delivered message is copied out by the listener's reader later on,
+		// after this call has returned: detach it from the caller's buffer
+		data = append([]byte(nil), data...)
+	}
 	md := &MessageData{
 		FromNode:    s.nodeID,
 		FromService: fromService,
